@@ -59,13 +59,16 @@ func c01T1(r *Run, rep *core.Report) {
 			continue
 		}
 		rn := core.NamedOf(f.Signature.Recv().Type())
-		if rn != r.M.ItemT[0] && rn != r.M.ItemT[1] {
+		if !r.M.IsItemRecv(rn) {
 			continue
 		}
 		if f.Signature.Results().Len() != 1 || typeName(f.Signature.Results().At(0).Type()) != "bool" {
 			continue
 		}
 		n++
+		if rn == r.M.ItemEmb[0] && rn == r.M.ItemEmb[1] {
+			n++ // a predicate on the embedded expiration shared by both item types serves both twins
+		}
 		rep.Fn(fn(f))
 		it := newInterp(r, false)
 		paths := it.Run(f)
